@@ -73,6 +73,8 @@ class Ctx:
         b, m = lf.linear_fit(self.X, self.Y)
         self.coef = (float(b), float(m))
         self.Yh = self.X * self.coef[1] + self.coef[0] + 0.25
+        self.Yi = self.Y[::-1].copy()                    # a second vector that stays integral when the curve is
+        self.Ei = self.P[[1, n - 2]].copy() if n >= 4 else self.P[[1]].copy()
         self.CM = np.array([[2, 1], [1, 5]])
         self.G = np.array([0.5, -1.0, 2.0, 0.25, 0.0, 1.5][:max(n, 3)])
         self.V = self.Y.copy()
@@ -110,14 +112,14 @@ def _reg():
     S['evaluation.accuracy_knee'] = lambda c: [((c.P, c.K), {})]
     S['evaluation.accuracy_trace'] = lambda c: [((c.P, c.K), {})]
     for f in ('mae', 'mse', 'rmse', 'rmspe'):
-        S['evaluation.' + f] = lambda c: [((c.P, c.K, c.E, s), {}) for s in ev.Strategy]
-    S['evaluation.cm'] = lambda c: [((c.P, c.K, c.E, 0.25), {})]
+        S['evaluation.' + f] = lambda c: [((c.P, c.K, c.E, s), {}) for s in ev.Strategy] + [((c.P, c.K, c.Ei, ev.Strategy.knees), {})]
+    S['evaluation.cm'] = lambda c: [((c.P, c.K, c.E, 0.25), {}), ((c.P, c.K, c.Ei, 0.25), {})]
     for f in ('accuracy', 'f1score', 'mcc'):
         S['evaluation.' + f] = lambda c: [((c.CM,), {})]
     S['evaluation.compute_global_rmse'] = lambda c: [((c.P, c.S), {})]
     S['evaluation.mip'] = lambda c: [((c.P, c.S), {})]
     S['evaluation.compute_cost'] = lambda c: [((c.P, np.array([0.5, 0.25]), m, {}), {}) for m in M]
-    S['evaluation.compute_partial_cost'] = lambda c: [((c.Y, c.Yh, m), {}) for m in M]
+    S['evaluation.compute_partial_cost'] = lambda c: [((c.Y, c.Yh, m), {}) for m in M] + [((c.Y, c.Yi, m), {}) for m in M]
     S['evaluation.compute_global_cost'] = lambda c: [((c.P, c.S, m), {}) for m in M]
     S['evaluation.compute_global_segment_cost'] = lambda c: [((c.P, np.arange(c.n), M.rpd), {})]
     S['knee_ranking.distances'] = lambda c: [((c.P[0].copy(), c.P), {})]
@@ -160,8 +162,8 @@ def _reg():
     S['menger.knee'] = lambda c: [((c.P,), {})]
     S['menger.multi_knee'] = lambda c: [((c.P,), {})]
     for f in ('rmse', 'rmsle', 'rmspe', 'rpd', 'residuals', 'smape'):
-        S['metrics.' + f] = lambda c: [((c.Y, c.Yh), {})]
-    S['metrics.r2'] = lambda c: [((c.Y, c.Yh), {}), ((c.Y, c.Yh, metrics.R2.adjusted), {})]
+        S['metrics.' + f] = lambda c: [((c.Y, c.Yh), {}), ((c.Y, c.Yi), {})]
+    S['metrics.r2'] = lambda c: [((c.Y, c.Yh), {}), ((c.Y, c.Yh, metrics.R2.adjusted), {}), ((c.Y, c.Yi), {})]
     S['multi_knee.multi_knee'] = lambda c: [((curvature.knee, c.P, 0.0, 2, m), {}) for m in (M.smape, M.r2)]
     S['postprocessing.filter_corner_knees'] = lambda c: [((c.P, c.K3, 0.33), {})]
     S['postprocessing.select_corner_knees'] = lambda c: [((c.P, c.K3, 0.33), {})]
